@@ -1,5 +1,5 @@
 ENGINES = [
- {'name': 'E1-symsql', 'path': 'engine/symsql/', 'serves_properties': ['C25'],
+ {'name': 'E1-symsql', 'path': 'engine/symsql/', 'serves_properties': ['C01', 'C25'],
   'kind_free_text': 'parser for the SQL text pony emits + denotational semantics over a symbolic database in z3 (per-dialect deltas), compared with a Python-semantics oracle'},
  {'name': 'E2-expreq', 'path': 'engine/expreq.py', 'serves_properties': ['C03', 'C04'],
   'kind_free_text': 'z3 encoding of Python expression semantics; decides whether two expression trees (source vs decompiled / regenerated) can evaluate differently'},
@@ -10,6 +10,9 @@ NOTES = ('Solver-based checking of the real code. Every check imports pony from 
          'discharged or matched a listed known finding; exit 1 + VIOLATION = reproduced counterexample; exit 2 = harness error. '
          'Inconclusive solver results are printed (INCONCLUSIVE) and counted in evidence, never counted as discharged; VERIF_STRICT=1 makes them exit 2.')
 CLAIMS = {
+ 'C01': dict(engine='E1-symsql', level='translation_validation', technique='z3 query per enumerated program: denotational semantics of the SQL text emitted by the real translator+builder over a symbolic database (row slots, null bits, unbounded ints, z3 sequences) vs a Python/3VL-semantics oracle over the same database; known-finding input regions excluded by assumption and re-queried; replay on real SQLite',
+   text='For each enumerated query program (filters, negations, seeded and/or combinations, projections, chained comparisons, None tests, arithmetic, string operations, to-one navigation, collections, aggregates, subqueries, two-variable joins) the real pony translator and SQLite builder produce SQL text; the text is parsed and evaluated over a symbolic database of R rows per table, the source is evaluated under the semantics the property fixes (three-valued comparisons, falsy missing values, Python arithmetic/slicing), and z3 decides that the two row sets are equal for ALL table contents and parameter values within the bound. Every counterexample is replayed on a real SQLite database through pony; every holding program additionally has the SQL model validated against the real engine on a solver-chosen database.',
+   note='Bounds: 2 rows per table (thorough 3), strings len<=3 printable ASCII, unbounded ints, programs enumerated from the grammar in checks/c01.py. Trusted: z3, engine/symsql (sqlparse, sqlsem validated against real SQLite per program; pysem = the property\'s stated semantics). Outside: float/Decimal/date, raw_sql, JSON, >2 joined tables, pure-aggregate select lists (pony grand-total semantics), inputs on which Python itself raises.'),
  'C30': dict(engine='E3-crosshair', level='other', technique='CrossHair/z3 symbolic execution of the real adapt_sql / parse_raw_sql / parse_expr with symbolic SQL text and parameter style against a reference statement of the documented rule; two-step histories compared with a cold run; finite template family as concrete obligations',
    text='For symbolic SQL text (len<=3, thorough 4, over the characters the adapter distinguishes) and each of the five parameter styles, CrossHair confirms over all paths that adapt_sql/parse_raw_sql produce the documented substitution ($$ -> $, $expr[;] -> placeholder in order, % doubled for format styles when parameters exist, other text unchanged, compiled expressions evaluate in order) and that a second adaptation does not depend on the first (same and different styles). Calls/subscripts/quoted brackets are covered by a finite concrete template family.',
    note='Trusted: crosshair-tool, z3, reference scanner in checks/h_c30.py. CrossHair path cost (~0.15 s) bounds the text length; regex matching on symbolic text is decided per path. Outside: texts longer than the bound, expression forms outside the template family, evaluation scope lookup (C04).'),
@@ -41,5 +44,5 @@ NOT_APPLICABLE = {
  'C32': 'detached objects read-only: enumeration of operations x object statuses, no value-dependent decision; ' + _HEAP,
  'C33': 'hooks once per change: call counting over flush rounds driven by arbitrary user hook bodies; ' + _HEAP,
 }
-for _p in ['C01','C02','C05','C06','C07','C13','C17','C18','C19','C20','C21','C22','C24','C26','C27','C28','C29','C31','C34','C35','C36']:
+for _p in ['C02','C05','C06','C07','C13','C17','C18','C19','C20','C21','C22','C24','C26','C27','C28','C29','C31','C34','C35','C36']:
     NOT_APPLICABLE.setdefault(_p, _TODO)
